@@ -150,3 +150,24 @@ def asFloatT : ObjVal → Except Err Num
   | .single x => .ok x
   | .multi _ => .error .typeError
 end Py
+
+/-! ## what `Variable.get()` returns: the variable itself, or its list of children -/
+inductive VarGet where
+  | one (v : Var)
+  | many (vs : List Var)
+deriving Repr
+
+namespace Py
+/-- iterating over the result of `get()`: a single variable is not iterable -/
+def getAsList : VarGet → Except Err (List Var)
+  | .many vs => .ok vs
+  | .one _ => .error .typeError
+
+/-- using the result of `get()` as one flattened variable: a list of children has no `correct` -/
+def getAsOne : VarGet → Except Err Var
+  | .one v => .ok v
+  | .many _ => .error .attributeError
+
+/-- `zip(a, b)` -/
+def zip (a : List α) (b : List β) : List (α × β) := List.zip a b
+end Py
